@@ -38,11 +38,15 @@ Doc(p) == CASE p \in {"taut-num", "taut-str", "taut-ident"} -> [class |-> "TAUTO
             [] p = "union-null" -> [class |-> "UNION_BASED", sev |-> "HIGH"]
             [] p = "union-system" -> [class |-> "UNION_BASED", sev |-> "CRITICAL"]
             [] OTHER -> [class |-> "OUT_OF_BAND", sev |-> "CRITICAL"]
-ExprSteps == {"and-left", "and-right", "or-left", "or-right", "not", "paren", "case-when", "in-list", "between", "func-arg", "cast", "arith"}
-Placements == {"where", "having", "join-on", "update-where", "delete-where", "select-item", "order-by", "insert-value", "update-set", "group-by"}
+ExprSteps == {"and-left", "and-right", "or-left", "or-right", "not", "paren", "case-when", "in-list", "between", "func-arg", "cast", "arith",
+              "case-first-when", "func-first-arg", "in-list-first"}   \* not the last element of a list
+Placements == {"where", "having", "join-on", "update-where", "delete-where", "select-item", "order-by", "insert-value", "update-set", "group-by",
+               \* the payload in an element that is not the last of its list
+               "join-on-first", "join-on-middle", "select-first-item", "order-by-first", "insert-first-row", "update-first-set", "group-by-first"}
 NestSteps == {"in-subquery", "exists", "scalar", "derived", "join-derived", "cte", "insert-select", "union-right", "union-left"}
 \* only queries can be nested
-QueryPlacement(pl) == pl \in {"where", "having", "join-on", "select-item", "order-by", "group-by"}
+QueryPlacement(pl) == pl \in {"where", "having", "join-on", "select-item", "order-by", "group-by", "join-on-first", "join-on-middle",
+                                "select-first-item", "order-by-first", "group-by-first"}
 Sev == [LOW |-> 1, MEDIUM |-> 2, HIGH |-> 3, CRITICAL |-> 4]
 Thresholds == {"LOW", "MEDIUM", "HIGH", "CRITICAL"}
 
